@@ -1,5 +1,8 @@
 """C10 — inconsistent arguments are refused before any kernel runs.
 
+Every path first makes an earlier *consistent* call of the same TensorMethod object with independent
+symbolic sizes, so a decision that depends on state kept from an earlier call shows up.
+
 The real ``TensorMethod.__call__`` (and the evaluate wrappers) run on proxy tensors whose order,
 modes, mode ordering and every dimension size are symbolic; the compiled kernel pointer is replaced
 by a spy.  z3 decides, for every path that reaches the spy, that the arguments are consistent."""
@@ -72,6 +75,32 @@ class SymTensor(Tensor):
     @property
     def mode_ordering(self):
         return tuple(SymInt(self.ord_t(k), dom=(0, MAX_ORDER - 1)) for k in range(self._n()))
+
+
+class PriorTensor(SymTensor):
+    """The argument of an *earlier*, consistent call of the same method: format exactly as generated,
+    dimension sizes fresh symbols (equal for participants of one index).  Used to decide that a call is
+    judged by its own arguments only - no state kept from an earlier call."""
+
+    def __init__(self, name, fmt):
+        super().__init__(name + "$prior")
+        self.fmt = fmt
+
+    @property
+    def order(self):
+        return self.fmt.order
+
+    @property
+    def dimensions(self):
+        return tuple(SymInt(self.dim_t(k)) for k in range(self.fmt.order))
+
+    @property
+    def modes(self):
+        return tuple(self.fmt.modes)
+
+    @property
+    def mode_ordering(self):
+        return tuple(self.fmt.ordering)
 
 
 CASES = [
@@ -149,11 +178,35 @@ def run_case(assignment, formats, backend="llvm"):
     def spy(*args):
         raise Entered(args)
 
+    prior = {n: PriorTensor(n, problem.formats[n]) for n in input_names}
+    prior_sizes = {}
+    for name, occs in problem.assignment.expression.variables().items():
+        for occ in occs:
+            for d, idx in enumerate(occ.indexes):
+                prior_sizes.setdefault(idx, []).append(prior[name].dim_t(d))
+
     def base(m):
         for t in tensors.values():
             t.base(m)
+        for terms in prior_sizes.values():
+            for a in terms:
+                m.assume(a >= 0)
+                m.assume(a <= INT_MAX)
+            for a in terms[1:]:
+                m.assume(a == terms[0])
 
     def body(m):
+        # an earlier, consistent call with other sizes (must reach the kernel); then the call under test
+        try:
+            tm(**prior)
+            outcome["violations"].append({"kind": "returned-without-entering-the-kernel", "call": "prior"})
+            return
+        except Entered:
+            pass
+        except (TypeError, ValueError) as e:
+            m.check()
+            outcome["violations"].append({"kind": "consistent-arguments-refused", "exception": f"{type(e).__name__}: {e}"[:300]})
+            return
         rec.clear()
         try:
             tm(**tensors)
@@ -278,9 +331,10 @@ def run(tier):
             tot["queries"] += stats.queries
             tot["solver_s"] += stats.solver_s
             entered_total += outcome["entered"]
-            if outcome["entered"] == 0:
+            # vacuity guards (a case that already reports a violation explains its own missing paths)
+            if outcome["entered"] == 0 and not outcome["violations"]:
                 rep.harness_error(f"vacuous: no path reaches the kernel for {a}")
-            if not outcome["refused"]:
+            if not outcome["refused"] and not outcome["violations"]:
                 rep.harness_error(f"vacuous: no refusal path for {a}")
             for v in outcome["violations"]:
                 rep.violation({"name": a, "kind": v["kind"], "assignment": a},
